@@ -31,8 +31,8 @@ NOINST static void sb_str(sb_t *s, const char *v) {
 	sb_put(s, "\"");
 }
 
-static long undef_count = 0;
-static const char *cur_path = "";
+static __thread long undef_count = 0;
+static __thread const char *cur_path = "";
 NOINST static int isdef(const void *p, size_t n, const char *field) {
 	if (!RUNNING_ON_VALGRIND) return 1;
 	unsigned char vb[64];
